@@ -2,6 +2,7 @@ package main
 
 import (
 	"context"
+	"encoding/json"
 	"fmt"
 	"strings"
 	"time"
@@ -773,6 +774,62 @@ func c10ClientX(callers int, callback, closeRace, lateCaller bool, b Bounds) *Sc
 	}
 }
 
+// c10ClientRawParams: parameters handed over as pre-encoded text (json.RawMessage) that is not valid
+// JSON, in Call, Notify and Batch. Whatever the client makes of them, every record it hands to Send
+// must still be one whole message.
+func c10ClientRawParams() *Scenario {
+	raws := []string{`[1, 2}`, `{"a":1`, `[1] [2]`, `{"a":tru}`, `[`, `{`, `[1,]`, `{"a":1}}`, "[\"\x01\"]", `[1]x`}
+	return &Scenario{
+		Name:   "client: pre-encoded parameters that are not valid JSON, in Call, Notify and Batch",
+		Params: map[string]any{"raw_params": raws},
+		Bounds: Bounds{0, 0, 0},
+		New: func() *Instance {
+			body := func() {
+				lib, peer, _ := NewPipe(PipeOpts{Name: "cli", CloseUnblocksRecv: true, Monitor: true})
+				c := jrpc2.NewClient(lib, nil)
+				vs.GoNamed("peer", func() {
+					for {
+						rec, ok := peer.Recv()
+						if !ok {
+							break
+						}
+						ms, _, _ := parseRecord(rec)
+						for _, m := range ms {
+							if m.Has("method") && m.Has("id") {
+								peer.Send([]byte(fmt.Sprintf(`{"jsonrpc":"2.0","id":%s,"result":1}`, m.ID())))
+							}
+						}
+					}
+					peer.Close()
+				})
+				// a call whose request cannot be read by the peer is never answered: bound each by a context the
+				// harness ends once nothing moves
+				for _, raw := range raws {
+					ctx, cancel := cancelCauseCtx()
+					vs.GoNamed("unstick", func() { vs.AwaitQuiescence(); cancel() })
+					c.Call(ctx, "m", json.RawMessage(raw))
+					c.Notify(ctx, "n", json.RawMessage(raw))
+					c.Batch(ctx, []jrpc2.Spec{{Method: "a", Params: []int{1}}, {Method: "b", Params: json.RawMessage(raw)}})
+					cancel()
+					vs.AwaitQuiescence()
+				}
+				_, err := c.Call(context.Background(), "ok", json.RawMessage(`[1]`))
+				vs.Note("last", errStr(err))
+				c.Close()
+			}
+			check := func(x *vs.Exec) []Viol {
+				v := genericRules(x, nil)
+				v = append(v, disciplineRules(x, "cli", 1)...)
+				if i := findEv(x, 0, "last"); x.Outcome == "ok" && (i < 0 || x.Log[i].Arg(0) != "<nil>") {
+					v = append(v, Viol{"C10.R5", "after the calls with unusable parameters the client no longer works: a valid call failed"})
+				}
+				return v
+			}
+			return &Instance{Body: body, Check: check}
+		},
+	}
+}
+
 // c10ClientCancel: a Call whose context is cancelled at an arbitrary moment (in particular while its
 // Send is in progress), with a second caller and/or Close competing for the channel.
 func c10ClientCancel(second, closeRace bool, b Bounds) *Scenario {
@@ -938,6 +995,7 @@ func c10ClientScenarios(tier string) []*Scenario {
 		b, bb = Bounds{3, 2, 0}, Bounds{2, 2, 0}
 	}
 	return []*Scenario{
+		c10ClientRawParams(),
 		c10Client(1, false, false, b),
 		c10Client(2, false, false, bb),
 		c10Client(1, true, false, bb),
